@@ -499,6 +499,52 @@ func TestWitnesses(t *testing.T) {
 	})
 }
 
+// The deepest possible paths: one key plus, for every nibble position, a key that differs from it exactly there
+// (65-element proofs), and tries where two keys share 63 nibbles or a single entry exists.
+func TestDeepestPathsHonest(t *testing.T) {
+	build := func(positions []int) *world {
+		base := make([]byte, 32)
+		tr := wmpt.New(nil, nil)
+		var es []refwmpt.Entry
+		add := func(k []byte, i int) {
+			v := []byte{byte(i), 0x33, byte(i >> 8)}
+			w := wmkit.WeightOf(v)
+			if err := tr.Update(k, v, w); err != nil {
+				t.Fatalf("Update: %v", err)
+			}
+			es = append(es, refwmpt.Entry{Key: k, Value: v, Weight: w})
+		}
+		add(base, 0)
+		for _, p := range positions {
+			k := make([]byte, 32)
+			if p%2 == 0 {
+				k[p/2] = 0x10
+			} else {
+				k[p/2] = 0x01
+			}
+			add(k, p+1)
+		}
+		w := &world{entries: es, trie: tr}
+		w.root, w.total = refwmpt.Root(es)
+		return w
+	}
+	all := make([]int, 64)
+	for i := range all {
+		all[i] = i
+	}
+	for name, pos := range map[string][]int{"every-nibble": all, "last-nibble-only": {63}, "single-entry": nil, "even-nibbles": {0, 2, 4, 20, 40, 62}, "deep-half": all[32:]} {
+		w := build(pos)
+		for b := uint64(1); b <= w.total; b++ {
+			var honest []byte
+			ev.Guard(t, "GetBlockProof", func() { honest = w.honest(t, b) })
+			if r := judge(t, w, b, honest, honest, "honest proof, "+name); r != "verifies-to-truth" {
+				t.Fatalf("%s: honest proof for block %d of %d: %s", name, b, w.total, r)
+			}
+			ev.Case(fmt.Sprintf("deep/%s/%d", name, b), true, "deepest-paths:"+name)
+		}
+	}
+}
+
 func TestWitnessKindConfusion(t *testing.T) {
 	if ev.Known(findKind) {
 		ev.Excluded(findKind + ": the tamper kind 'value record standing in for a branch/short node' is not drawn")
